@@ -18,6 +18,9 @@
  * poisons it for AddressSanitizer, so that any later read or write by the
  * library is reported (STOP asan); after clear returns the pattern is
  * verified (p=1) and the elements are made usable again.
+ *
+ * Every operation re-arms a watchdog (2 s of CPU time): library code that
+ * loops forever on corrupted links ends the script with "STOP hang".
  */
 #include "common.h"
 #include "cstl/heap.h"
@@ -26,6 +29,9 @@
 #include <stdio.h>
 #include <stdlib.h>
 #include <string.h>
+#include <unistd.h>
+#include <signal.h>
+#include <sys/time.h>
 
 #if defined(__SANITIZE_ADDRESS__)
 #include <sanitizer/asan_interface.h>
@@ -224,10 +230,31 @@ static struct elem * elem_of(const char * s)
     return &pool[id - 1];
 }
 
+static void on_vtalrm(int sig)
+{
+    (void)sig;
+    signal(SIGALRM, SIG_DFL);
+    raise(SIGALRM);
+}
+
+/* 2 s of user CPU time (not wall time: the machine may be loaded) */
+static void arm_watchdog(void)
+{
+    struct itimerval it;
+    memset(&it, 0, sizeof(it));
+    it.it_value.tv_sec = 2;
+    signal(SIGVTALRM, on_vtalrm);
+    setitimer(ITIMER_VIRTUAL, &it, NULL);
+}
+
 static void op(int argc, char ** argv)
 {
     const char * o = argv[0];
     int full = 0;
+
+    /* a single operation that burns this much CPU time is a hang (the parent
+     * reports the SIGALRM death of this child as "STOP hang") */
+    arm_watchdog();
 
     if (!strcmp(o, "push") && argc == 3 && elem_of(argv[2])) {
         struct elem * e = elem_of(argv[2]);
